@@ -313,6 +313,8 @@ def run(ctx, col, tier):
     memo.run(ctx, col, ('swcgeom.core.population', 'swcgeom.transforms.population'))
     from ..rules import ignoredparam
     ignoredparam.run(ctx, col, ('swcgeom.core.population', 'swcgeom.transforms.population'))
+    from ..rules import globlint
+    globlint.run(ctx, col, ('swcgeom.core.population', 'swcgeom.transforms.population'))
     col.guard(iter_rule, ctx, col)
     col.guard(cache_rule, ctx, col)
     col.guard(chain_rule, ctx, col)
